@@ -60,6 +60,19 @@ def dfc_scalar(p, coords):
     return ds, states
 
 
+def transpose_form(p, n, h):
+    """the distance h de-interleaved into n coordinates of p bits ("transposed" form, computed
+    here from the public result only): coordinate i takes the bits i, i+n, i+2n, ... of the
+    n*p-bit big-endian expansion of h"""
+    out = []
+    for i in range(n):
+        x = 0
+        for j in range(p):
+            x = (x << 1) | ((h >> (n * p - 1 - (i + j * n))) & 1)
+        out.append(x)
+    return out
+
+
 # ---- a pure-Python reference of the *classical* curve (n = 2), used only for
 # extra direct checks at orders the kernel-evaluated theorems do not reach
 def hilbert_ref(p, d):
